@@ -205,8 +205,12 @@ class Pool:
                 break
             if proc is None or proc.poll() is not None:
                 proc, errf = self._spawn(i)
+            # time slice of this case: the remaining budget is shared among the cases still queued
+            now = time.time()
+            waves = self.q.qsize() // self.nproc + 1
+            slice_end = now + max(5.0, (self.deadline - now) / waves)
             try:
-                proc.stdin.write("%d\n" % c)
+                proc.stdin.write("%d %d\n" % (c, int(min(max(slice_end, now + 5), max(self.deadline, now + 5)))))
                 proc.stdin.flush()
                 line = proc.stdout.readline()
             except (BrokenPipeError, OSError):
